@@ -448,6 +448,7 @@ func checkC05(w *World) {
 	docRule(P, "R05.3", "D", "existential shape: a comparison evaluated inside a loop over a node-set stores true (and returns) on its true edge; the arm stores false only after the loop; comparisons outside loops store the comparison value itself.")
 	docRule(P, "R05.4", "D", "scalar priority in = and !=: the comparison of Bool() values is reached only when one operand is a boolean, the Number() comparison only when neither is a boolean, the String() comparison only when neither is a boolean or a number; node-set x boolean arms compare with the node-set's Bool().")
 	docRule(P, "R05.5", "T siblings", "the four relational handlers have the same multiset of operand-type arms, likewise the two equality handlers; node-set x node-set, node-set x number, node-set x string (both orders) and node-set x boolean arms exist in each.")
+	docRule(P, "R05.6", "F", "in the node-set arms, the value compared for a node is that node's string-value or the number of it: between the loop's node and the comparison lie only exec.GetCursorString, the package's string-to-number conversion, type conversions and helpers of the package every return of which is such a value; a value read from a map or a field (a memo keyed by position answers for a node of another document) or a method of the cursor's node (the text of the first child is not the string-value) is reported.")
 
 	var nts []string
 	for nt := range cmpNTs {
@@ -546,6 +547,14 @@ func checkC05(w *World) {
 					perNode = c.InLoop && derivesFromLoopElement(c.X) && derivesFromLoopElement(c.Y)
 				}
 				w.check(P, "R05.3", fmt.Sprintf("%s: comparison #%d [%s] is made per node", nt, i+1, pg), c.In.Pos(), perNode, fmt.Sprintf("the comparison sits inside the loop over the node-set and compares that loop's node: %v (summaries such as min/max of the set lose NaN and non-numeric nodes)", perNode))
+				// ... and what is compared is the node's string-value (or its number), computed from the node itself
+				fault := ""
+				for _, o := range []ssa.Value{c.X, c.Y} {
+					if derivesFromLoopElement(o) && fault == "" {
+						fault = w.nodeValueFault(o, 0)
+					}
+				}
+				w.check(P, "R05.6", fmt.Sprintf("%s: comparison #%d [%s] compares the node's string-value", nt, i+1, pg), c.In.Pos(), fault == "", "the value compared for a node is its string-value (GetCursorString) or the number of it, through conversions and helpers that return exactly that: "+orOK(fault))
 			}
 		}
 		sort.Strings(arms)
